@@ -140,6 +140,20 @@ def add_misc(reg):
         return ex.val(t, st)
     reg.externs['time.time'] = now
 
+    def other_clock(name):
+        # any other clock (monotonic, perf_counter ...) has its own epoch: fresh non-decreasing values that are
+        # NOT related to the wall clock `now` the contracts (and HttpProtocolHandler.__init__) speak about
+        def clock(ex, st, args, kwargs, fr):
+            t = VInt(z3.Int(fresh_name(name)))
+            last = st.ghost.get('$last_' + name)
+            if last is not None:
+                st.assume(t.t >= last.t)
+            st.ghost['$last_' + name] = t
+            return ex.val(t, st)
+        return clock
+    for nm in ('monotonic', 'perf_counter', 'process_time', 'monotonic_ns', 'time_ns'):
+        reg.externs['time.' + nm] = other_clock(nm)
+
 
 def add_text(reg):
     """utf-8 decode/encode: identity on ASCII, otherwise uninterpreted (E-CODEC)."""
@@ -417,3 +431,26 @@ def add_split_all(reg):
         lst = st.alloc(HList(o.kind if o.kind != 'mv' else 'bytes', sp))
         return ex.val(lst, st)
     reg.externs['split_all'] = split_all
+
+
+def add_path_ufs(reg):
+    """Library string transformations a change might interpose on a path (percent-decoding, absolutising,
+    joining ...): uninterpreted functions without axioms -- whatever they return is NOT known to be their
+    argument, so `open(unquote(path))` cannot be shown to open `path`."""
+    from pyvc.vals import VStr
+
+    def uf(name, arity):
+        f = z3.Function('lib_' + name.replace('.', '_'), *([z3.StringSort()] * arity + [z3.StringSort()]))
+
+        def model(ex, st, args, kwargs, fr):
+            a = [x.t for x in args[:arity]]
+            while len(a) < arity:
+                a.append(z3.StringVal(''))
+            return ex.val(VStr(f(*a), args[0].kind if args else 'str'), st)
+        return model
+    for nm, k in (('urllib.parse.unquote', 1), ('urllib.parse.unquote_plus', 1), ('urllib.parse.quote', 1), ('urllib.parse.unquote_to_bytes', 1),
+                  ('posixpath.abspath', 1), ('posixpath.realpath', 1), ('posixpath.expanduser', 1), ('posixpath.basename', 1),
+                  ('posixpath.dirname', 1), ('posixpath.join', 2), ('posixpath.relpath', 2), ('posixpath.normcase', 1)):
+        if nm not in reg.externs:
+            reg.externs[nm] = uf(nm, k)
+    reg.assumptions.append('library path transformations other than normpath are uninterpreted (no axioms): nothing is known about their result')
